@@ -100,6 +100,17 @@ def run(eng, rep) -> None:
         rep.extra["abstract_instance_chars"] = len(csrc) + len(hsrc)
         from ..front_clang import c_errors
         errs = c_errors(os.path.join(tmp, "dev.c"), [tmp, tdir])
+        # placeholders of template variables the checker has no role for: declare them as opaque ints
+        for _ in range(8):
+            und = sorted({m2.group(1) for e_ in errs for m2 in [re.search(r"undeclared identifier '(J_\w+)'", e_)] if m2})
+            if not und:
+                break
+            pre += "".join("extern const int %s;\n" % u for u in und)
+            with open(os.path.join(tmp, hname), "w") as fh:
+                fh.write(pre + hsrc)
+            with open(os.path.join(tmp, "dev.c"), "w") as fc:
+                fc.write(pre + csrc)
+            errs = c_errors(os.path.join(tmp, "dev.c"), [tmp, tdir])
         if errs:
             rep.undecided("S1", F, "scheduler", "abstract instantiation", "the abstract instance does not type-check, typed rules S1-S3 not decided: %s" % errs[0][-160:])
             return
@@ -136,7 +147,7 @@ def run(eng, rep) -> None:
     # S1
     s1 = non_decl[0] if non_decl else None
     ok1 = s1 is not None and s1.kind == "IfStmt" and any(x.kind == "BinaryOperator" and x.get("opcode") == "==" and refs(x, prev) and refs(x, tparam) for x in cwalk(s1.inner[0])) and any(x.kind == "ReturnStmt" for x in cwalk(s1.inner[1])) and len(s1.inner) == 2
-    rep.check(ok1, "S1", F, "scheduler", "if (%s == %s) return;  (first statement)" % (prev, tparam), "a repeated timestamp sends nothing", "the scheduler does not start with `if (time == previous call) return;`: messages can be sent twice for one timestamp")
+    rep.check(ok1, "S1", F, "scheduler", "if (%s == %s) return;  (first statement)" % (prev, tparam), "a repeated timestamp sends nothing", "the scheduler does not start with exactly `if (time == previous call) return;`: with any other early-return condition a call at a new timestamp can be swallowed (a message that is due is not sent) or a repeated timestamp sends twice")
     s1b = non_decl[1] if len(non_decl) > 1 else None
     ok1b = s1b is not None and s1b.kind == "BinaryOperator" and s1b.get("opcode") == "=" and refs(s1b.inner[0], prev) and refs(s1b.inner[1], tparam)
     rep.check(ok1b, "S1", F, "scheduler", "%s = %s;" % (prev, tparam), "previous-call time updated before the message blocks", "the previous-call time is not updated right after the early-return test")
